@@ -38,7 +38,7 @@ pub fn parse<'a>(token: &'a tokenizer::Token) -> Option<Element<'a>> {
                     |(mut pairs, mut state), (pos, current_char)| {
                         match state {
                             State::NameBegin => match current_char {
-                                ' ' => {}
+                                ' ' | '\n' => {}
                                 '=' => state = State::ParseError,
                                 '"' => state = State::ParseError,
                                 '\'' => state = State::ParseError,
@@ -58,7 +58,7 @@ pub fn parse<'a>(token: &'a tokenizer::Token) -> Option<Element<'a>> {
                                 _ => {}
                             },
                             State::NameEnd => match current_char {
-                                ' ' => {}
+                                ' ' | '\n' => {}
                                 '=' => state = State::ValueBegin,
                                 _ => {
                                     state = State::Name(pos);
